@@ -71,6 +71,7 @@ type FuncContract struct {
 type Sweep struct {
 	PkgPrefix string
 	Name      string
+	Reachable bool // also every module function (below ReachPrefix) reachable from the named ones
 	Props     []string
 	File      string
 	Line      int
@@ -137,7 +138,7 @@ var keywords = map[string]bool{
 	"func": true, "trusted": true, "props": true, "mode": true, "requires": true, "ensures": true,
 	"modifies": true, "loop": true, "at-call": true, "at-store": true, "inline": true, "pure": true,
 	"spec": true, "axiom": true, "guarded_by": true, "monitor": true, "census": true, "panics": true,
-	"why:": true, "regexlang": true, "recovers": true, "closure-only": true, "params": true, "ghostfield": true, "ufn": true, "checks": true, "nobody": true, "ghost": true, "maypanic": true, "splitpaths": true, "reach": true, "sweep": true, "errpanics": true,
+	"why:": true, "regexlang": true, "recovers": true, "closure-only": true, "recovers-errors": true, "passed-only": true, "params": true, "ghostfield": true, "ufn": true, "checks": true, "nobody": true, "ghost": true, "maypanic": true, "splitpaths": true, "reach": true, "sweep": true, "sweep-reachable": true, "errpanics": true,
 }
 
 type rawLine struct {
@@ -234,14 +235,14 @@ func ParseFile(filename, pkg, src string) (*File, error) {
 			cur.MayPanic = true
 		case "errpanics":
 			cur.ErrPanics = true
-		case "sweep":
+		case "sweep", "sweep-reachable":
 			// sweep <package path prefix> <function or method name> ; props C05
 			main, props, _ := strings.Cut(rest, ";")
 			mf := strings.Fields(main)
 			if len(mf) != 2 {
 				return nil, errf("sweep needs <package path prefix> <name>")
 			}
-			sw := &Sweep{PkgPrefix: mf[0], Name: mf[1], File: filename, Line: r.line}
+			sw := &Sweep{PkgPrefix: mf[0], Name: mf[1], File: filename, Line: r.line, Reachable: kw == "sweep-reachable"}
 			pf := strings.Fields(props)
 			if len(pf) > 1 {
 				sw.Props = pf[1:]
@@ -436,7 +437,7 @@ func ParseFile(filename, pkg, src string) (*File, error) {
 			}
 			f.Regexes = append(f.Regexes, &RegexDecl{Global: m[1], Spec: sp, Props: strings.Fields(m[3]), Pkg: pkg, File: filename, Line: r.line})
 			cur = nil
-		case "recovers", "closure-only":
+		case "recovers", "closure-only", "recovers-errors", "passed-only":
 			// recovers F ; props Cxx      |      closure-only A in B, C ; props Cxx
 			main, props, _ := strings.Cut(rest, ";")
 			sd := &StructDecl{Kind: kw, Pkg: pkg, File: filename, Line: r.line}
@@ -456,6 +457,13 @@ func ParseFile(filename, pkg, src string) (*File, error) {
 						sd.Args = append(sd.Args, x)
 					}
 				}
+			} else if kw == "passed-only" {
+				// passed-only A to F : the closure A is created once and its only use is as an argument of a direct call of F
+				a, b, ok := strings.Cut(main, " to ")
+				if !ok {
+					return nil, errf("passed-only A to F")
+				}
+				sd.Args = []string{strings.TrimSpace(a), strings.TrimSpace(b)}
 			} else {
 				sd.Args = []string{main}
 			}
